@@ -713,7 +713,20 @@ class ExcludeRegionState(object):  # pylint: disable=too-many-instance-attribute
         elif (deltaE != 0):
             # Recover any retraction recorded from the excluded region before the next
             # extrusion occurs
+            lastRetraction = self.lastRetraction
             returnCommands = self.recoverRetractionIfNeeded(cmd, False)
+            if (
+                    (lastRetraction is not None) and
+                    lastRetraction.recoverExcluded and
+                    (not lastRetraction.firmwareRetract)
+            ):
+                # The injected recovery leaves the extruder at the position following this move.
+                # Restore the position preceding the move, so the move extrudes the amount the
+                # file intends.
+                returnCommands.insert(
+                    len(returnCommands) - 1,
+                    "G92 E{e}".format(e=formatNumber(eAxis.nativeToLogical(priorE, True)))
+                )
         else:
             returnCommands = [cmd]
 
